@@ -81,7 +81,7 @@ theorem Inv.load_fresh {b : Bitstream} (_hb : b.Inv) (h0 : b.nBits = 0) (hi : b.
 def Bitstream.loadOr (b : Bitstream) : Bitstream :=
   { b with bits := b.bits ||| shl64 (b.bytes.getD b.index 0).toUInt64 b.nBits, nBits := b.nBits + 8, index := b.index + 1 }
 
-theorem Inv.load_or {b : Bitstream} (hb : b.Inv) (h56 : b.nBits ≤ 56) (hi : b.index < b.bytes.size) :
+theorem Inv.load_or {b : Bitstream} (hb : b.Inv) (h56 : b.nBits < 56) (hi : b.index < b.bytes.size) :
     b.loadOr.Inv ∧ b.loadOr.pos = b.pos := by
   have hle := hb.nBits_le
   have hpos : b.loadOr.pos = b.pos := by
@@ -129,5 +129,105 @@ theorem Inv.load_or {b : Bitstream} (hb : b.Inv) (h56 : b.nBits ≤ 56) (hi : b.
     · exact hb.high i hge hi2 hset
     · rw [byte_testBit_ge _ _ (by omega)] at hset
       simp at hset
+
+/-! ### `slowDecode` over an abstract bit sequence -/
+
+inductive AbsRes where
+  | sym (s : Int) (k : Nat)   -- a code ended after bit `k-1`; `symbols[…] = s`
+  | fail                      -- ran out of bits, or no code of length ≤ 15: `mostNegativeInt32`
+  | panic
+deriving DecidableEq
+
+/-- `slowDecodeLoop` reading bit number `k`, `k+1`, … of a sequence `bit` of which `avail` exist. -/
+def absLoop (h : Huffman) (bit : Nat → Bool) (avail : Nat) : (rem i code first symIndex k : Nat) → AbsRes
+  | 0, _, _, _, _, _ => .fail
+  | rem + 1, i, code, first, symIndex, k =>
+    if avail ≤ k then .fail
+    else
+      let code := code ||| (bit k).toNat
+      let count := h.counts.getD i 0
+      if code < count + first then
+        match h.symbols[(symIndex + code + 4294967296 - first) % 4294967296]? with
+        | some s => .sym s (k + 1)
+        | none => .panic
+      else
+        absLoop h bit avail rem (i + 1) ((code <<< 1) % 4294967296) (((first + count) <<< 1) % 4294967296)
+          (symIndex + count) (k + 1)
+
+theorem and_one_toNat (x : UInt64) : (x &&& 1).toNat = (x.toNat.testBit 0).toNat := by
+  simp only [UInt64.toNat_and, Nat.testBit_zero]
+  have : (1 : UInt64).toNat = 1 := rfl
+  rw [this, Nat.and_one_is_mod]
+  rcases Nat.mod_two_eq_zero_or_one x.toNat with h | h <;> simp [h]
+
+/-- What a concrete `slowDecodeLoop` result has to do with an abstract one. -/
+def Refines (b : Bitstream) (P : Nat) (r : AbsRes) (c : Except Err (Int × Bitstream)) : Prop :=
+  match r with
+  | .sym s k' => ∃ b', c = .ok (s, b') ∧ b'.Inv ∧ b'.pos = P + k' ∧ b'.bytes = b.bytes
+  | .fail => ∃ b', c = .ok (mostNegativeInt32, b')
+  | .panic => c = .error .panic
+
+theorem slowDecodeLoop_refines (h : Huffman) (rem i code first symIndex k P : Nat) (b : Bitstream)
+    (hb : b.Inv) (hP : b.pos = P + k) :
+    Refines b P (absLoop h (fun j => streamBit b.bytes (P + j)) (8 * b.bytes.size - P) rem i code first symIndex k)
+      (h.slowDecodeLoop rem i code first symIndex b) := by
+  induction rem generalizing i code first symIndex k b with
+  | zero => exact ⟨b, rfl⟩
+  | succ rem ih =>
+    have hle := hb.nBits_le
+    have hil := hb.index_le
+    have hpos : b.pos = 8 * b.index - b.nBits := rfl
+    simp only [absLoop, Huffman.slowDecodeLoop]
+    by_cases hout : b.nBits = 0 ∧ b.index ≥ b.bytes.size
+    · have : 8 * b.bytes.size - P ≤ k := by omega
+      simp only [hout, and_self, if_true, this]
+      exact ⟨b, rfl⟩
+    · have hav : ¬ (8 * b.bytes.size - P ≤ k) := by omega
+      simp only [hout, hav, if_false]
+      -- the refilled cursor
+      generalize hb1 : (if b.nBits = 0 then
+          ({ b with bits := (b.bytes.getD b.index 0).toUInt64, nBits := 8, index := b.index + 1 } : Bitstream)
+        else b) = b1
+      have h1 : b1.Inv ∧ b1.pos = b.pos ∧ 1 ≤ b1.nBits ∧ b1.bytes = b.bytes := by
+        rw [← hb1]
+        split
+        · rename_i h0
+          have := Inv.load_fresh hb h0 (by omega)
+          exact ⟨this.1, this.2, by simp, rfl⟩
+        · exact ⟨hb, rfl, by omega, rfl⟩
+      obtain ⟨hi1, hp1, hn1, hby1⟩ := h1
+      have hbit : (b1.bits &&& 1).toNat = (streamBit b.bytes (P + k)).toNat := by
+        rw [and_one_toNat, hi1.low 0 (by omega), hp1, hP, hby1]
+        simp
+      have hc := Inv.consume hi1 1 hn1
+      have hshr : shr64 b1.bits 1 = b1.bits >>> 1 := by simp [shr64]
+      rw [hshr] at hc
+      simp only [hbit]
+      by_cases hcode : code ||| (streamBit b.bytes (P + k)).toNat < h.counts.getD i 0 + first
+      · -- a code ends here
+        simp only [hcode, if_true]
+        cases hsym : h.symbols[(symIndex + (code ||| (streamBit b.bytes (P + k)).toNat) + 4294967296 - first) % 4294967296]? with
+        | none => rfl
+        | some s =>
+          refine ⟨_, rfl, hc.1, ?_, ?_⟩
+          · rw [hc.2, hp1, hP]; omega
+          · exact hby1
+      · simp only [hcode, if_false]
+        have := ih (i + 1) ((code ||| (streamBit b.bytes (P + k)).toNat) <<< 1 % 4294967296)
+          ((first + h.counts.getD i 0) <<< 1 % 4294967296) (symIndex + h.counts.getD i 0) (k + 1)
+          ({ b1 with bits := b1.bits >>> 1, nBits := b1.nBits - 1 } : Bitstream) hc.1
+          (by rw [hc.2, hp1, hP]; omega)
+        have e0 : ({ b1 with bits := b1.bits >>> 1, nBits := b1.nBits - 1 } : Bitstream).bytes = b.bytes := hby1
+        rw [e0] at this
+        -- transport `Refines` from the advanced cursor back to `b`
+        revert this
+        generalize absLoop h (fun j => streamBit b.bytes (P + j)) (8 * b.bytes.size - P) rem (i + 1) _ _ _ (k + 1) = r
+        intro this
+        cases r with
+        | sym s k' =>
+          obtain ⟨b', e1, e2, e3, e4⟩ := this
+          exact ⟨b', e1, e2, e3, e4.trans hby1⟩
+        | fail => exact this
+        | panic => exact this
 
 end WuffsVerif.Flate.Cut
